@@ -39,6 +39,45 @@ Proof.
   eexists. split; reflexivity.
 Qed.
 
+Lemma dl_remaining_fresh now T : 0 < T -> dl_remaining {| d_now := now; d_deadline := now + T * NS_PER_MS |} = T.
+Proof.
+  intros HT. unfold dl_remaining. cbn [d_now d_deadline].
+  replace (now + T * NS_PER_MS - now) with (T * NS_PER_MS) by lia.
+  rewrite Z.quot_mul by (unfold NS_PER_MS; lia).
+  assert (H : (T <? 0) = false) by (apply Z.ltb_ge; lia). now rewrite H.
+Qed.
+
+(* Send with a limited time-out on a dead connection: two clock readings, one poll, one clock reading, one send, then the
+   errno of that send is thrown — whatever the size and the time-out *)
+Theorem limited_send_on_dead_peer_throws : forall fd size T n a b c dt rev e sc (s : os),
+  0 < T <= INT_MAX -> 0 < n ->
+  o_script s = EvNow a :: EvNow b :: EvPoll n 0 dt rev :: EvNow c :: EvSend (-1) e :: sc ->
+  exists s', sock_send fd size T s = (Exn (SysErr e), s') /\ o_script s' = sc.
+Proof.
+  intros fd size T n a b c dt rev e sc s [HT HTm] Hn Hs.
+  unfold sock_send.
+  assert (H1 : (T <? 0) = false) by (apply Z.ltb_ge; lia). rewrite H1.
+  assert (H2 : (T =? 0) = false) by (apply Z.eqb_neq; lia). rewrite H2.
+  unfold bind at 1. unfold dl_new, bind, sys_now. rewrite Hs. cbn [emit set_script].
+  cbv beta iota zeta. cbn [ret].
+  unfold send_some, bind, script_fuel. cbn [o_script set_script length].
+  cbn [send_some_loop]. unfold bind at 1.
+  unfold wait_writable, wait_fd, bind at 1.
+  rewrite dl_remaining_fresh by assumption.
+  unfold do_poll, bind, script_fuel. cbn [o_script length].
+  assert (H3 : (T <=? 0) = false) by (apply Z.leb_gt; lia). rewrite H3.
+  unfold dl_new, bind, sys_now. cbn [o_script emit set_script o_now]. cbv beta iota zeta. cbn [ret].
+  cbn [poll_limited]. unfold bind, sys_poll. cbn [o_script emit set_script o_now]. cbv beta iota zeta.
+  rewrite dl_remaining_fresh by assumption.
+  unfold interrupted.
+  assert (H4 : (n <? 0) = false) by (apply Z.ltb_ge; lia). rewrite H4. cbn [andb ret].
+  rewrite H4.
+  assert (H5 : (n =? 0) = false) by (apply Z.eqb_neq; lia). rewrite H5. cbn [negb].
+  unfold dl_tick, bind, sys_now. cbn [o_script emit set_script o_now]. cbv beta iota zeta. cbn [ret].
+  unfold send_now, bind, sys_send. cbn [o_script emit set_script o_now]. cbv beta iota zeta.
+  cbn. eexists. split; reflexivity.
+Qed.
+
 (* Receive on a reset connection (unlimited or zero time-out): the errno of recv() is thrown *)
 Theorem receive_on_reset_throws : forall fd size T n dt rev e sc (s : os),
   T <= 0 -> 0 < n -> o_script s = EvPoll n 0 dt rev :: EvRecv (-1) e :: sc ->
@@ -109,6 +148,7 @@ Proof. reflexivity. Qed.
 
 Print Assumptions unlimited_send_on_dead_peer_throws.
 Print Assumptions try_send_on_dead_peer_throws.
+Print Assumptions limited_send_on_dead_peer_throws.
 Print Assumptions receive_on_reset_throws.
 Print Assumptions receive_after_close_throws_closed.
 Print Assumptions delivered_is_what_recv_returned.
